@@ -699,9 +699,10 @@ class TypedTree(Tree):
     @staticmethod
     def deserialize_mapper(parent: Node, data: dict) -> str | object | None:
         """Used as default `mapper` argument for :meth:`load`."""
-        if "str" in data and len(data) <= 2:
+        if "str" in data and set(data) <= {"str", "kind", "data_id"}:
             # This can happen if the source was generated without a
             # serialization mapper, for a TypedTree that has pure str nodes
+            # (optionally with a custom data_id)
             return data["str"]
         raise NotImplementedError(
             f"Override this method or pass a mapper callback to evaluate {data}."
